@@ -32,7 +32,12 @@ def main(argv=None) -> int:
     report.not_decided = meta.get("not_decided", "")
     report.assumptions = list(meta.get("assumptions", []))
     try:
-        mod.run(report, tier)
+        try:
+            mod.run(report, tier)
+        except AnalysisError as exc:
+            if not report.findings:
+                raise
+            report.defer_error(str(exc))  # a violation was already located: report it (finish() gives it precedence), with the error as a caveat
         from . import guards
         from .rp2model import model
 
